@@ -587,8 +587,9 @@ def c16(v):
                 nxt = v.delivery[6] if v.delivery[0] == "exhausted" else v.delivery[1]["next"] if v.delivery[0] == "outcome" else None
                 if r != "SCHEDULED" or nxt != d:
                     return f"attempt {a}: DEFER with delay {d} but the run ended {v.delivery[0]} stop={r} next_sleep_s={nxt}"
-            if dec == "A" and r != "ABORTED":
-                return f"attempt {a}: ABORT but the run ended {v.delivery[0]} stop={r}"
+            if dec == "A" and (r != "ABORTED" or v.delivery[0] not in ("abort", "outcome")):
+                return (f"attempt {a}: the sleep handler answered ABORT but the run ended {v.delivery[0]} stop={r} "
+                        f"(expected AbortRetryError from call(), an ABORTED outcome from execute())")
     return None
 
 
@@ -634,7 +635,11 @@ def check_seq(pid, seq, obs):
     f = ORACLES[pid]
     for j, v in enumerate(views(seq, obs)):
         try:
-            m = f(v)
+            # every property of the retry loop presupposes that a run ends in one of the documented ways; an exception that
+            # neither the operation nor a scripted callback raised (the scripts' callbacks never raise ordinary exceptions) is the
+            # library failing on its own
+            m = (f"the call ended with {v.delivery[1]}: {str(v.delivery[2])[:160]} — raised by the library itself, not by the operation "
+                 f"or a callback") if v.delivery and v.delivery[0] == "other_exc" else f(v)
         except Exception as e:  # an oracle crash on a weird trace is reported, not hidden
             m = f"oracle could not interpret the trace: {type(e).__name__}: {e}"
         if m:
